@@ -203,7 +203,7 @@ func TestSnapshots(t *testing.T) {
 		nontrivial := false
 		var hist []any
 		for i := 1; i <= n; i++ {
-			origin := rapid.SampledFrom([]string{"local-update", "local-set", "remote-write", "reply", "notify", "remote-nonpersist", "peer-read", "local-append-set"}).Draw(t, fmt.Sprintf("origin%d", i))
+			origin := rapid.SampledFrom([]string{"local-update", "local-set", "remote-write", "reply", "notify", "remote-nonpersist", "peer-read", "local-append-set", "local-mirror"}).Draw(t, fmt.Sprintf("origin%d", i))
 			if origin == "local-append-set" {
 				// read-modify-write by the application: it obtains the data, appends an item to the list of ITS copy
 				// (Go's append writes into spare capacity of the array the copy shares with the store and with
@@ -244,6 +244,31 @@ func TestSnapshots(t *testing.T) {
 					continue
 				}
 				origin = "local-set"
+			}
+			if origin == "local-mirror" {
+				// the application mirrors data it obtained earlier into its own feature: a data set that is being
+				// watched (DataCopy of the remote feature, an event payload) is handed in as the new data of a
+				// partial update (merge by identifier). The data set handed in is still the application's: it must
+				// not change by that
+				if len(e.snaps) == 0 {
+					origin = "local-update"
+				} else {
+					sn := e.snaps[rapid.IntRange(0, len(e.snaps)-1).Draw(t, fmt.Sprintf("mirrored%d", i))]
+					if v := reflect.ValueOf(sn.value); sn.value == nil || v.Kind() != reflect.Ptr || v.IsNil() || v.Type() != reflect.PointerTo(f.DataType) {
+						origin = "local-update"
+					} else {
+						failed := e.srv.UpdateData(f.Fn, sn.value, model.NewFilterTypePartial(), nil) != nil
+						e.w.Sync()
+						e.lstate = refmodel.CloneItems(refmodel.ItemsOf(&f, e.srv.DataCopy(f.Fn)))
+						e.checkSnaps(t, i, "local-mirror/partial")
+						e.collectEventPayloads(i)
+						seq = append(seq, "local-mirror")
+						world.Label("origin/local-mirror")
+						hist = append(hist, map[string]any{"origin": origin, "mirrored_data_set_from_step": sn.at, "failed": failed})
+						nontrivial = nontrivial || len(e.lstate) > 0
+						continue
+					}
+				}
 			}
 			if origin == "peer-read" && !e.subscribed && rapid.Bool().Draw(t, fmt.Sprintf("subscribe%d", i)) {
 				// from now on every change of the local data is encoded for a notification (data sets
